@@ -18,6 +18,10 @@ func Registry() []*Spec {
 		s.Property, s.Asserts = pa.prop, pa.asserts
 		add(s)
 	}
+	add(Spec{Property: "C06", Name: "VerifSEN_Direct", Pkg: "asm", HangCheck: true, MaxSteps: 400000,
+		Quick: map[string]int{"N": 3}, Thorough: map[string]int{"N": 4},
+		Covers: []string{"accepted", "rejected"}, UnitDepth: 3, Asserts: []string{"no-panic", "terminates"},
+		Note: "every byte string of length <= N through sen.Parser.Parse and sen.Tokenizer.Parse: no panic; a path over the step budget (400k SSA instructions) is replayed natively under an 8 s limit and reported as non-termination only if it really hangs"})
 	// ---- C03: all front-ends agree, however the input is chunked
 	add(Spec{Property: "C03", Name: "VerifC03_Chunked", Pkg: "asm",
 		Quick: map[string]int{"N": 3}, Thorough: map[string]int{"N": 4, "ALLCOMP": 1},
